@@ -342,6 +342,11 @@ def _(c):
         err2 = _build_and_check(n, o, check_every_step=False, want_shortest=True)
         if err2 and not bad_short:
             bad_short = err2
+        # every pair asked after EVERY insertion: an answer given before a later link closed a cycle must not be served again afterwards
+        if not bad_short and (n <= 4 or o is orders[0]):
+            err3 = _build_and_check(n, o, check_every_step=True, want_shortest=True)
+            if err3:
+                bad_short = "asked after every insertion: " + err3
     c.ensure("valid_chain", bad_valid is None)
     c.ensure("shortest_chain", bad_short is None)
 
@@ -504,6 +509,9 @@ def _(c):
 STN = "beyond.frames.stations"
 
 
+@contract("C11", "create_station", funcs=[f"{STN}:create_station"], level="proof",
+          assumptions=["Center, TopocentricOrientation and TopocentricFrame constructors abstracted as recorders (C11.geodetic / C11.topo.axes cover them)",
+                       "_geodetic_to_cartesian by its contract (C11.geodetic)"])
 @contract("C20", "create_station", funcs=[f"{STN}:create_station"], level="proof",
           assumptions=["Center, TopocentricOrientation and TopocentricFrame constructors abstracted as recorders (C11.geodetic / C11.topo.axes / C20.register cover them)",
                        "_geodetic_to_cartesian by its contract (C11.geodetic)"])
@@ -564,7 +572,13 @@ def _(c):
     topos = [x for x in calls if isinstance(x, Rec) and x.kind == "Topo"]
     links = [x for x in calls if isinstance(x, tuple) and x[0] == "add_link"]
     olinks = [x for x in calls if isinstance(x, tuple) and x[0] == "link"]
-    c.ensure("angles_in_radians", len(geo) == 1 and c.all_eq(np.array(list(geo[0]), dtype=object), np.array([sym.radians(lat), sym.radians(lon), alt], dtype=object)))
+    c.ensure("one_geodetic_conversion", len(geo) == 1)
+    g_lat, g_lon, g_alt = geo[0]
+    # latitude and altitude as given, in radians; the longitude may be brought back into another revolution, but must be the same direction
+    c.ensure("angles_in_radians", sym.And(g_lat == sym.radians(lat), g_alt == alt, sym.cos(g_lon) == sym.cos(sym.radians(lon)), sym.sin(g_lon) == sym.sin(sym.radians(lon))))
+    if not equatorial:
+        t_lat, t_lon = list([x for x in calls if isinstance(x, Rec) and x.kind == "Topo"][0].a[1])[:2]
+        c.ensure("orientation_from_the_same_angles", sym.And(t_lat == sym.radians(lat), sym.cos(t_lon) == sym.cos(sym.radians(lon)), sym.sin(t_lon) == sym.sin(sym.radians(lon))))
     c.ensure("one_centre", len(centers) == 1 and centers[0].a == ("S",) and centers[0].k == {"body": "BODY"})
     c.ensure("centre_linked_once_to_the_parent_centre", len(links) == 1 and links[0][1] is centers[0] and links[0][2][0] is par_center and links[0][2][1] is par_orient
              and links[0][2][2] is coords)
